@@ -248,6 +248,8 @@ def judge_poser(case):
                 j.skip("phiTphi-guard")
                 continue
             e = (a + 1.0) * exp[:, mode]
+            if not j.check(np.asarray(r.Phi).shape == exp.shape, "poser-phi-shape", lambda: f"group {nm}: merged Phi has shape {np.asarray(r.Phi).shape}, expected (sensors, modes) = {exp.shape}"):
+                break
             got = np.asarray(r.Phi)[:, mode]
             err = np.max(np.abs(got - e)) / max(np.max(np.abs(e)), 1e-300)
             j.check(err <= 1e-9, "poser-phi", lambda: f"group {nm} mode {mode}: err={err:.3e} c={c[:, mode].tolist()}")
@@ -264,6 +266,8 @@ def judge_poser(case):
             e = -(a + 2.0) * exp
             okm = [abs(Phi[:k, mode] @ Phi[:k, mode]) / max(np.vdot(Phi[:k, mode], Phi[:k, mode]).real, 1e-300) >= 0.05 for mode in range(e.shape[1])]
             got = np.asarray(res2[nm].Phi)
+            if not j.check(got.shape == e.shape, "poser-phi-shape", lambda: f"group {nm}: merged Phi has shape {got.shape}, expected {e.shape}"):
+                continue
             bad = [mode for mode in range(e.shape[1]) if okm[mode] and np.max(np.abs(got[:, mode] - e[:, mode])) > 1e-9 * max(np.max(np.abs(e[:, mode])), 1e-300)]
             j.check(not bad, "poser-remerge-phi", lambda: f"group {nm}: second merge returns stale or wrong shapes for modes {bad}")
     # the first setup's algorithms are replaced by new objects of the same names (a repeated analysis), then a third merge
@@ -288,6 +292,8 @@ def judge_poser(case):
             j.check(np.allclose(np.asarray(res3[nm].Fn), fn.mean(axis=0), rtol=1e-12), "poser-replaced-fn", lambda: f"group {nm}: merge after the first setup's algorithm was replaced returns {np.asarray(res3[nm].Fn).tolist()}, expected {fn.mean(axis=0).tolist()}")
             e = (a + 3.0) * exp
             got = np.asarray(res3[nm].Phi)
+            if not j.check(got.shape == e.shape, "poser-phi-shape", lambda: f"group {nm}: merged Phi has shape {got.shape}, expected {e.shape}"):
+                continue
             bad = [mode for mode in range(e.shape[1]) if okm[mode] and np.max(np.abs(got[:, mode] - e[:, mode])) > 1e-9 * max(np.max(np.abs(e[:, mode])), 1e-300)]
             j.check(not bad, "poser-replaced-phi", lambda: f"group {nm}: merge after the first setup's algorithm was replaced returns stale or wrong shapes for modes {bad}")
     return j
